@@ -61,7 +61,7 @@ func VerifCacheState(bs Blockstore, name func(key string) string) string {
 		case *bloomcache:
 			// an inactive filter at quiescence is dead state: only Rebuild can
 			// activate, and it swaps in a fresh filter first
-			if c.active.Load() {
+			if c.BloomActive() {
 				fmt.Fprintf(&sb, "bloom{active bits=%s}", c.bloom.Load().JSONMarshalTS())
 			} else {
 				sb.WriteString("bloom{inactive}")
